@@ -65,13 +65,18 @@ theorem coincide : ∀ t : XTy, plain t = true → xwf t = true → Same t
         (h2 .metal).2, h4]
   | .struct ms, hp, hw => by
     simp only [plain] at hp
-    simp only [xwf, Bool.and_eq_true] at hw
-    obtain ⟨h1, h2, h3, h4, h5⟩ := coincideAll ms hp hw.2
+    simp only [xwf] at hw
+    obtain ⟨h1, h2, h3, h4, h5⟩ := coincideAll ms hp hw
     cases ms with
-    | nil => simp at hw
+    | nil =>
+      refine ⟨rfl, fun m => ?_, fun m b => rfl, rfl⟩
+      cases m <;> exact ⟨rfl, rfl⟩
     | cons t ts =>
       refine ⟨by simpa [erase, wf, eraseAll] using h1, fun m => ?_, fun m b => ?_, ?_⟩
-      · simp only [xsize, xalign, erase, size, align, h2 m, (h3 m 0).1, and_self]
+      · simp only [xsize, xalign, erase, eraseAll, size, align]
+        simp only [eraseAll] at h2 h3
+        rw [h2 m, (h3 m 0).1]
+        exact ⟨rfl, rfl⟩
       · simp only [xfieldsAt, erase, fieldsAt, h4]
       · simp only [xagreeIn, erase, agreeIn, (h3 .hlsl 0).2, (h3 .metal 0).2, h5]
 theorem coincideAll : ∀ ts : XTys, plainAll ts = true → xwfAll ts = true → SameAll ts
@@ -148,5 +153,103 @@ theorem checkOne_opaque (t : XTy) (hp : plain t = false) : ∀ r, checkOne (eras
   split
   · simp
   · rename_i lh h; exact absurd h (get_opaque .hlsl t hp lh)
+
+/-! ### no panic over the full universe (since /repo 24ea36f) -/
+
+mutual
+theorem get_noPanic_full (m : Mode) : ∀ t : XTy, xwf t = true → NoPanic (get m (erase t))
+  | .scalar s, hw => by
+    cases hp : (s != .Bool) with
+    | true =>
+      simp only [xwf, xsized_eq s hp] at hw
+      simp only [erase]; rw [get_scalar m s hw]; exact noPanic_ok _
+    | false =>
+      have : s = .Bool := by cases s <;> simp_all
+      subst this
+      have : get m (erase (.scalar .Bool)) = .error .unknown := by
+        simp [erase, Model.Layout.get, scalarLayout_bool]
+      rw [this]; exact noPanic_unknown
+  | .vec s n, hw => by
+    cases hp : (s != .Bool) with
+    | true =>
+      simp only [xwf, xsized_eq s hp, Bool.and_eq_true, decide_eq_true_eq] at hw
+      simp only [erase]; rw [get_vec m s n hw.1 hw.2]; exact noPanic_ok _
+    | false =>
+      have : s = .Bool := by cases s <;> simp_all
+      subst this
+      have : get m (erase (.vec .Bool n)) = .error .unknown := by
+        simp [erase, Model.Layout.get, scalarLayout_bool]
+      rw [this]; exact noPanic_unknown
+  | .mat _ _ _ _, _ => by
+    have : ∀ s r c j, get m (erase (.mat s r c j)) = .error .unknown := by
+      intro s r c j; simp [erase, Model.Layout.get, otherLayout_matrix]
+    rw [this]; exact noPanic_unknown
+  | .enum u, hw => by
+    simp only [xwf] at hw
+    simp only [erase]; rw [get_enum m u hw]; exact noPanic_ok _
+  | .arr t n, hw => by
+    simp only [xwf, Bool.and_eq_true, decide_eq_true_eq] at hw
+    have ih := get_noPanic_full m t hw.2
+    intro msg h
+    simp only [erase, Model.Layout.get] at h
+    split at h
+    · rename_i e he; cases h; exact ih msg he
+    · rw [array_ops_pinned] at h
+      split at h
+      · split at h
+        · cases h
+        · rename_i e he; cases h; exact mulU32?_no_panic he
+      · cases h
+  | .struct .nil, _ => by
+    have : get m (erase (.struct .nil)) = .ok ⟨emptySize m, 1⟩ := get_empty m
+    rw [this]; exact noPanic_ok _
+  | .struct (.cons t ts), hw => by
+    simp only [xwf] at hw
+    have ih := getMembers_noPanic_full m (.cons t ts) ⟨structInit.1, structInit.2⟩ hw
+    intro msg h
+    simp only [erase, Model.Layout.get] at h
+    split at h
+    · rename_i e he; cases h; exact ih msg he
+    · rw [final_ops_pinned] at h
+      split at h
+      · cases h
+      · rename_i e he; cases h; exact nextMultipleOf?_no_panic he
+theorem getMembers_noPanic_full (m : Mode) : ∀ (ts : XTys) (acc : Layout), xwfAll ts = true →
+    NoPanic (getMembers m (eraseAll ts) acc)
+  | .nil, acc, _ => by simp only [eraseAll, getMembers]; exact noPanic_ok _
+  | .cons t ts, acc, hw => by
+    simp only [xwfAll, Bool.and_eq_true] at hw
+    have iht := get_noPanic_full m t hw.1
+    intro msg h
+    simp only [eraseAll, getMembers] at h
+    split at h
+    · rename_i e he; cases h; exact iht msg he
+    · rw [member_ops_pinned] at h
+      split at h
+      · rename_i e he; cases h; exact memberStep_noPanic _ _ msg he
+      · rename_i acc' _
+        exact getMembers_noPanic_full m ts acc' hw.2 msg h
+end
+
+/-- the loop body never panics on a type both rule sets have a layout for -/
+theorem checkOne_noPanic_full (t : XTy) (hw : xwf t = true) : NoPanic (checkOne (erase t)) := by
+  cases hp : plain t with
+  | true => exact checkOne_noPanic (erase t) (coincide t hp hw).1
+  | false =>
+    intro msg h
+    unfold checkOne at h
+    split at h
+    · rename_i e he; cases h; exact get_noPanic_full .hlsl t hw msg he
+    · rename_i lh hlh; exact get_opaque .hlsl t hp lh hlh
+
+/-- … and a type that mentions a `bool` or a matrix gets exactly "unknown size" -/
+theorem checkOne_opaque_unknown (t : XTy) (hw : xwf t = true) (hp : plain t = false) :
+    checkOne (erase t) = .error .unknown := by
+  cases hc : checkOne (erase t) with
+  | ok r => exact absurd hc (checkOne_opaque t hp r)
+  | error e =>
+    cases e with
+    | unknown => rfl
+    | panic msg => exact absurd hc (checkOne_noPanic_full t hw msg)
 
 end RsslVerif.Lemmas.LayoutFull
